@@ -157,6 +157,17 @@ CHECKS = {
         note="set literals/comprehensions are only covered by the hash-seed runs (finitely many seeds, stated); machine "
              "load is an assumption",
         technique="exhaustive deviation-bounded exploration of iteration-order schedules on the real implementation"),
+    "C16": dict(
+        level="model_checking", engine="E3+E6", ref="DESIGN.md section 4 C16",
+        text="for every specification the front-end produces on the enumerated blocks (several option sets) with "
+             "init_progr_len <= 5 (quick) / 6 (thorough): explicit-state uniform-cost search over the reference stack "
+             "machine bounded by the published length and stack bounds must find a realizing sequence (re-validated by "
+             "the symbolic stack machine), and no realizing sequence of any height may be shorter than the published "
+             "minimum lengths",
+        note="state hashing is exact ((stack, executed set) have the same futures); known finding: init_progr_len too "
+             "small when a rule discards a value; recorded original instructions are checked by C14",
+        technique="explicit-state search (uniform-cost BFS with exact state hashing) over a reference transition "
+                  "system, witnesses replayed on the specification emitted by the implementation"),
 }
 
 NOT_YET = "check not built yet in this session (planned in DESIGN.md section 4); nothing is claimed for it"
